@@ -218,9 +218,9 @@ func HarnessC04Queries() {
 	// two queries built around one shared sub-expression (a filter object reused by the
 	// application), its operands in either order: evaluation only reads the tree
 	for _, ops := range [][]Expression{{eq("a", "a1"), eq("b", "b0")}, {eq("b", "b0"), eq("a", "a1")}} {
-		// quick tier: only the order in which the operands' keys descend (the one a
-		// canonicalisation by key would change); thorough: both
-		if verifTier() == 0 && ops[0].cacheKey() < ops[1].cacheKey() {
+		// only the order in which the operands' keys descend (the one a canonicalisation by
+		// key would change)
+		if ops[0].cacheKey() < ops[1].cacheKey() {
 			continue
 		}
 		shared := &ExprAnd{Exprs: ops}
